@@ -286,7 +286,7 @@ Theorem children_correct : forall nodes ipfx lpfx leaves m vs,
   forall p id big step pfx fc labels,
     nth_error nodes p = Some (VInner id big step pfx fc labels) ->
     exists ith wsz from to bm plen pfxb,
-      get_node m vs (N.of_nat p) = Val (DInner ith wsz from to bm plen pfxb) /\
+      get_node m vs (N.of_nat p) = Val (DnInner ith wsz from to bm plen pfxb) /\
       first_child m from = Val (N.of_nat fc) /\
       last_child m to = Val (N.of_nat (fc + length labels - 1)) /\
       forall k, k < (if big then 257 else 17) ->
@@ -384,7 +384,7 @@ Theorem decoder_no_panic : forall nodes ipfx lpfx leaves m vs,
     | VLeaf _ ord _ => exists b, ith_leaf_bytes m (N.of_nat ord) = Val b
     | VInner _ big _ _ _ _ =>
       forall ith wsz from to bm plen pfxb,
-        get_node m vs (N.of_nat p) = Val (DInner ith wsz from to bm plen pfxb) ->
+        get_node m vs (N.of_nat p) = Val (DnInner ith wsz from to bm plen pfxb) ->
         (exists l, node_labels m from to bm = Val l) /\
         (exists c, first_child m from = Val c) /\ (exists c, last_child m to = Val c) /\
         (forall k, k < (if big then 257 else 17) -> exists r, left_child m from to bm k = Val r)
